@@ -174,6 +174,16 @@ Theorem C02_assert_complete :
 Proof. exact assert_complete. Qed.
 Print Assumptions C02_assert_complete.
 
+(* vm.addr / vm.sign: the distinctness constraints between the addresses of different key TERMS exclude no
+   input, in particular none on which two terms hold the same key *)
+Theorem C02_vmaddr_excludes_no_input :
+  forall (V : Type) (f : Z -> Z) (known : list ((V -> Z) * (V -> Z))) (k : V -> Z) (v : V),
+    (forall x y, f x = f y -> x = y) ->
+    (forall ka, In ka known -> snd ka v = f (fst ka v)) ->
+    forall c, In c (vmaddr_constraints V f known k) -> c v = true.
+Proof. exact vmaddr_constraints_admit_every_input. Qed.
+Print Assumptions C02_vmaddr_excludes_no_input.
+
 (* non-vacuity: a two-account world, an oracle that answers `unknown` to everything, and a target
    that hits the second account: the covering alternative exists and names that account *)
 Example C02_alias_nonvacuous :
